@@ -52,7 +52,7 @@ Definition sout_eqb (a b : sout) : bool :=
 Record scase := mkSCase {
   sc_scripts : scripts; sc_desc : mdesc; sc_opts : fopts;
   sc_kind : nat; sc_span : list Z; sc_tbl : list (Z * locres);
-  sc_entry : nat;                         (* 0 = solve(start=, end=)   1 = solve_period(start) *)
+  sc_entry : nat;                         (* 0 = solve(start=, end=)   1 = solve_period(start)   2 = iter_periods(start=, end=) *)
   sc_start : option Z; sc_end : option Z;
   sc_state : fstate; sx_state : fstate; sx_out : sout }.
 
@@ -62,6 +62,13 @@ Definition run_scase (c : scase) : fstate * sout :=
          | (s', Ret r) => (s', Ret (r_len r, r_visits r))
          | (s', Raise e) => (s', Raise e)
          end
+  | S (S _) =>
+      (* iter_periods(start=, end=): (len(period_iter), list(period_iter)) — the pairs are reported as visits with flag false;
+         nothing is solved, the state is untouched *)
+      match iter_periods_M Z (f_locate (sc_kind c) (sc_span c) (sc_tbl c)) (sc_desc c) (sc_span c) (sc_start c) (sc_end c) with
+      | Ret (len, ps) => (sc_state c, Ret (len, map (fun tl : Z * Z => (snd tl, fst tl, false)) ps))
+      | Raise e => (sc_state c, Raise e)
+      end
   | _ => match sc_start c with
          | Some lab =>
              match f_solve_period (sc_scripts c) (sc_desc c) (sc_opts c) (sc_kind c) (sc_span c) (sc_tbl c) lab (sc_state c) with
